@@ -204,6 +204,20 @@ impl<'a> Interp<'a> {
                 let path = match place {
                     Ok(p) => p,
                     Err(Stop::Panic(mut p)) => {
+                        // compound assignment: all index expressions are evaluated (once) before the
+                        // bounds checks of the place, so a failing later index expression may be
+                        // reported instead of an earlier out-of-bounds index
+                        for a in accs {
+                            if let Acc::Index(i) = a {
+                                if let Some(pi) = self.probe_panic(i) {
+                                    for alt in pi.alts {
+                                        if !p.alts.contains(&alt) {
+                                            p.alts.push(alt);
+                                        }
+                                    }
+                                }
+                            }
+                        }
                         if let Some(pv) = self.probe_panic(value) {
                             for a in pv.alts {
                                 if !p.alts.contains(&a) {
